@@ -24,7 +24,7 @@ def summarise(ro, plan, verdicts=(), extra_sums=None) -> dict:
     """Common statistics of a run for the aggregate / evidence."""
     st = ro.stats or {}
     counts = dict(st.get("counts") or {})
-    faults = {k: counts.get(k, 0) for k in ("stall", "starve", "slow_user", "line_preempt", "hot_line_preempt", "fairness_override", "wall_comp_sleep", "carry_over_start", "drain_gave_up", "timeout_args", "reconfig_between_episodes") if counts.get(k)}
+    faults = {k: counts.get(k, 0) for k in ("stall", "starve", "slow_user", "line_preempt", "hot_line_preempt", "fairness_override", "wall_comp_sleep", "carry_over_start", "drain_gave_up", "timeout_args", "reconfig_between_episodes", "mid_episode_get_record", "user_thread_pause") if counts.get(k)}
     faults["preempt"] = st.get("preempts", 0)
     strategies = {}
     sim_time = 0.0
